@@ -428,7 +428,13 @@ func (i *interpreter) index(idx value, t types.Type, n int) int {
 		if i.decide(oob) {
 			panic(runtimePanic{fmt.Sprintf("index out of range [symbolic] with length %d", n)})
 		}
-		return int(i.concretize(sv.t, "index"))
+		save := i.ex.concCap
+		if n+1 > save {
+			i.ex.concCap = n + 1
+		}
+		r := int(i.concretize(sv.t, "index"))
+		i.ex.concCap = save
+		return r
 	}
 	v := asInt64(idx)
 	if v < 0 || v >= int64(n) {
